@@ -44,6 +44,12 @@ USES = [
     ("sum_anon", "a(X) :- X = #sum {{ L : {SHA} }}."),
     ("sum_twice", "a(X) :- X = #sum {{ L,D,L : {SH} }}."),
     ("sum_unify", "a(X) :- X = #sum {{ L,D : {SH} ; 1,D : day(D) }}."),
+    ("sum_unify_rev", "a(X) :- X = #sum {{ 1,D : day(D) ; L,D : {SH} }}."),
+    ("sum_unify_var", "a(X) :- X = #sum {{ C,E : ps(E,C), C > 1 ; L,D : {SH} }}."),
+    ("sum_unify_var_first", "a(X) :- X = #sum {{ L,D : {SH} ; C,E : ps(E,C), C > 1 }}."),
+    ("sum_three", "a(X) :- X = #sum {{ 1,x,D : day(D) ; L,D : {SH} ; 2,D : day(D) }}."),
+    ("sum_global_weight", "a(L,X) :- ps(_,L), X = #sum {{ L,D : {SH} }}."),
+    ("sum_global_group", "a(D,X) :- day(D), X = #sum {{ L,D : {SH} }}."),
     ("sum_nounify", "a(X) :- X = #sum {{ L,D : {SH} ; 1,x,D : day(D) }}."),
     ("sum_group", "a(D,X) :- day(D), X = #sum {{ L : {SH} }}."),
     ("sum_notuple", "a(X) :- X = #sum {{ L : {SH} }}."),
